@@ -10,7 +10,7 @@ use crate::version::zerv::PreReleaseLabel;
 
 static PEP440_REGEX: LazyLock<Regex> = LazyLock::new(|| {
     Regex::new(
-        r#"(?ix)
+        r#"(?ix-u)
         ^v?
         (?:
             (?:(?P<epoch>[0-9]+)!)?                           # epoch
